@@ -78,6 +78,11 @@ def specs(ctx, n):
         use_script = rng.random() < 0.8
         script = [(rng.choice(alphabet), None) for _ in range(n_iter)] if use_script else []
         pool = [s for s, _ in script] or [v[0] for v in table.values()]
+        # non-finite scores never count as "reached" (NaN) / count like any number (+-inf): also as the very first score
+        if use_script and rng.random() < 0.35:
+            for j in range(len(script)):
+                if j == 0 or rng.random() < 0.2:
+                    script[j] = (rng.choice([math.nan, math.nan, -INF, INF]), None)
         r = rng.random()
         if r < 0.25:
             m = rng.choice([0.0, -0.0, 0])
@@ -88,6 +93,18 @@ def specs(ctx, n):
         if rng.random() < 0.3:
             m = np.float64(m)
         calls = [dict(n_iter=n_iter, max_score=m, memory=rng.random() < 0.5)]
+        # together with other criteria that cannot fire here: the threshold still decides
+        # (no early_stopping next to non-finite scores: no_change is modelled for finite histories only, C13's quantifier)
+        r2 = rng.random()
+        if any(not math.isfinite(x) for x, _ in script) and r2 >= 0.15:
+            r2 = 1.0
+        if r2 < 0.15:
+            calls[0]["max_time"] = 10 ** 6
+        elif r2 < 0.3:
+            calls[0]["early_stopping"] = {"n_iter_no_change": n_iter + 20}
+        elif r2 < 0.35:
+            calls[0]["max_time"] = 10 ** 6
+            calls[0]["early_stopping"] = {"n_iter_no_change": n_iter + 20, "tol_abs": 0.5}
         if rng.random() < 0.25:
             n2 = rng.choice([1, 3, 6])
             calls.append(dict(n_iter=n2, max_score=rng.choice(pool), memory=rng.random() < 0.5))
@@ -124,7 +141,8 @@ def d_unit_and_monitor(ctx, n):
             rows = len(o["rows"]) - prev_rows
             ctx.monitor_runs += 1
             ctx.monitor_nontrivial.add((spec["name"], tuple(scores), repr(c["max_score"])))
-            msg = monitor_call(scores, c["n_iter"], float(c["max_score"]), rows, o["best_score"])
+            # the property speaks of real thresholds; +-inf thresholds are still compared with the model by the D-unit
+            msg = monitor_call(scores, c["n_iter"], float(c["max_score"]), rows, o["best_score"]) if math.isfinite(float(c["max_score"])) else None
             if msg:
                 ctx.violation(dict(kind="max_score", max_score=float(c["max_score"]), optimizer=spec["name"]),
                               dict(spec=dunit.spec_full(spec), call=jsonable(c), scores=scores), msg)
